@@ -588,6 +588,36 @@ func rulesC03(c *Ctx) {
 							return found || isR && false
 						})
 					}
+					if !joined {
+						// joined by counting tokens on a channel the goroutines send to: whether as many are received as were
+						// started is a matter of values, not of shape
+						counted := false
+						var sentTo []types.Object
+						// (the goroutine may call a local closure that does the sending)
+						for _, l := range holder.Root().AllLits() {
+							ast.Inspect(l.Body, func(x ast.Node) bool {
+								if snd, isS := x.(*ast.SendStmt); isS {
+									if o := l.ObjOf(snd.Chan); o != nil {
+										sentTo = append(sentTo, o)
+									}
+								}
+								return true
+							})
+						}
+						inspectNoLit(holder.Body, func(x ast.Node) {
+							if u, isU := x.(*ast.UnaryExpr); isU && u.Op == token.ARROW {
+								for _, o := range sentTo {
+									if holder.ObjOf(u.X) == o && hg.ReachableFrom(hg.VertexOf(gs))[hg.VertexOf(u)] {
+										counted = true
+									}
+								}
+							}
+						})
+						if counted {
+							c.Undecided("notify-on-the-callers-goroutine:"+holder.Name(), holder, gs, "the goroutines that send the notifications are joined by receiving tokens from a channel they send to: that as many tokens are awaited as goroutines were started is not decided here")
+							continue
+						}
+					}
 					c.Check(joined, "notify-on-the-callers-goroutine:"+holder.Name(), holder, gs, "a goroutine that sends a notification is joined (WaitGroup/errgroup Wait) on every path before the notifying function returns")
 				}
 			}
